@@ -19,7 +19,7 @@ static const char *const lu_names[] = {"BlockLU", "BlockLUPiv", "SimpleLU", "Sim
 // L, U and P are pre-filled with a sentinel: the pinned tests re-use one L/U/P across calls, so whatever they hold
 // on entry must not show in the factors.
 template <class T, size_t N, int LUT, int PF, int ARG>
-void thunk(const T *a, T *l, T *u, T *pm, size_t *pv, T *rec) {
+void thunk(const T *a, T *l, T *u, T *pm, size_t *pv, T *rec) { vf::ArmedThunk vf_armed_;
   constexpr LUCompType lt = static_cast<LUCompType>(LUT);
   Tensor<T, N, N> A; std::copy(a, a + N * N, A.data());
   Tensor<T, N, N> L, U; L.fill(T(77)); U.fill(T(-77));
